@@ -94,6 +94,11 @@ def check_lookup(mon, rng, ds, prob, dec):
             x = ds.in_data[int(rng.integers(n))] + rng.normal(size=d) * 1e-3  # 1-D point
         else:
             x = rng.normal(size=(2, d)) * 5
+        if rng.random() < 0.04:
+            kind = "big-batch"
+            idx = rng.integers(n, size=int(rng.integers(520, 1700)))
+            x = ds.in_data[idx] + rng.normal(size=(len(idx), d)) * 1e-4
+            mon.count("big_batch_lookups")
         x0 = x.copy()
         x2 = np.atleast_2d(x0)
         # exact-ish squared distances in float64 via direct differences (no dot-product trick)
